@@ -65,6 +65,20 @@ class Node(Symbol):
 
 
 @dataclass(eq=False)
+class Twin(Symbol):
+    """an element class with VALUE equality that does not change under mutation: two Twin objects with the same key are
+    distinct symbols (the symbol graph goes by identity) that compare and hash equal (used by C16)"""
+    name: str
+    key: int = 0
+
+    def __eq__(self, other):
+        return isinstance(other, Twin) and other.key == self.key
+
+    def __hash__(self):
+        return hash(("Twin", self.key))
+
+
+@dataclass(eq=False)
 class Boss(Role[Node], Symbol):
     node: Node
     leads: Node = None
@@ -170,6 +184,67 @@ class Partner(PropertyDescriptor, HasInverseProperty):
 Org.part_of = PartOf(Org, "part_of")
 Dept.belongs_to = PartOf(Dept, "belongs_to")
 Org.partner = Partner(Org, "partner")
+
+
+# family K: a chain of sub-properties four deep (KAff <- KEmp <- KLead <- KChairs) where some domain classes skip levels:
+# KEmployee has a field for every level, KConsultant only for the two ends (no KEmp field), and the role KChair of a
+# KConsultant declares the bottom level only, so its super-properties live in a role taker that skips the middle level.
+# "A sub-property implies its super-properties" is stated on the descriptor-class order (strict superclass at ANY distance),
+# not on chains of fields that happen to exist in one class.
+@dataclass(eq=False)
+class KOrg(Symbol):
+    name: str
+
+
+@dataclass(eq=False)
+class KEmployee(Symbol):
+    name: str
+    leads: KOrg = None
+    employed_by: TList[KOrg] = field(default_factory=list)
+    affiliated_with: TSet[KOrg] = field(default_factory=set)
+
+
+@dataclass(eq=False)
+class KConsultant(Symbol):
+    name: str
+    leads: TList[KOrg] = field(default_factory=list)
+    affiliated_with: TList[KOrg] = field(default_factory=list)
+
+
+@dataclass(eq=False)
+class KChair(Role[KConsultant], Symbol):
+    consultant: KConsultant
+    chairs: TList[KOrg] = field(default_factory=list)
+
+    def __eq__(self, other):
+        return self is other
+
+    def __hash__(self):
+        return id(self)
+
+
+@dataclass
+class KAff(PropertyDescriptor): ...
+
+
+@dataclass
+class KEmp(KAff): ...
+
+
+@dataclass
+class KLead(KEmp): ...
+
+
+@dataclass
+class KChairs(KLead): ...
+
+
+KEmployee.leads = KLead(KEmployee, "leads")
+KEmployee.employed_by = KEmp(KEmployee, "employed_by")
+KEmployee.affiliated_with = KAff(KEmployee, "affiliated_with")
+KConsultant.leads = KLead(KConsultant, "leads")
+KConsultant.affiliated_with = KAff(KConsultant, "affiliated_with")
+KChair.chairs = KChairs(KChair, "chairs")
 
 
 @dataclass
@@ -288,8 +363,9 @@ def families() -> Dict[str, Family]:
         from test.dataset.university_ontology_like_classes import Company, Person, CEO
         _FAMS["U"] = Family("U", [Company, Person, CEO], {2: "person"}, extra_range={(0, "members"): [2]},
                             max_counts=(3, 3, 2)).analyse()
-        _FAMS["N"] = Family("N", [Node, Boss], {1: "node"}, max_counts=(4, 2)).analyse()
+        _FAMS["N"] = Family("N", [Node, Boss, Twin], {1: "node"}, max_counts=(4, 2, 0)).analyse()
         _FAMS["O"] = Family("O", [Org, Dept], {}, max_counts=(4, 2)).analyse()
+        _FAMS["K"] = Family("K", [KOrg, KEmployee, KConsultant, KChair], {3: "consultant"}, max_counts=(3, 2, 2, 2)).analyse()
     return _FAMS
 
 
@@ -510,6 +586,13 @@ def gen_population(fam: Family, rng: core.Rng):
         nodes = list(range(nn))
         rng.shuffle(nodes)
         pop += [[1, nodes[i]] for i in range(nb)]
+    elif fam.key == "K":
+        no, ne, nc = rng.randint(1, 3), rng.randint(0, 2), rng.randint(1, 2)
+        nch = rng.randint(0, nc)
+        pop = [[0, None]] * no + [[1, None]] * ne + [[2, None]] * nc
+        cons = list(range(no + ne, no + ne + nc))
+        rng.shuffle(cons)
+        pop += [[3, cons[i]] for i in range(nch)]
     else:
         no, nd = rng.randint(2, 4), rng.randint(0, 2)
         pop = [[0, None]] * no + [[1, None]] * nd
@@ -550,7 +633,7 @@ def gen_cases(tier: str, seed: int) -> List[dict]:
     fams = families()
     n_random, n_sets, maxperm = (1500, 9, 5) if tier == "quick" else (12000, 60, 6)
     out = []
-    keys = ["U", "N", "N", "O"]
+    keys = ["U", "N", "K", "O", "N"]
     for i in range(n_random):
         fam = fams[keys[i % len(keys)]]
         pop = gen_population(fam, rng)
@@ -636,8 +719,8 @@ def run(tier: str, seed: int, replay=None) -> int:
         "instance classes own their descriptors directly (no instances of subclasses of a descriptor-owning class)",
     ]
     rep.rule = ("random assertion histories (1-9 write operations: append/insert/extend/+=/assignment, add/update/|=, scalar assignment) "
-                "over random populations of the university model and of two harness-defined schemas (diamond of sub-properties + transitive "
-                "inverse pair with cycles + role taker; one transitive descriptor on two domain classes + self-inverse relation), plus ALL "
+                "over random populations of the university model and of three harness-defined schemas (diamond of sub-properties + transitive "
+                "inverse pair with cycles + role taker; one transitive descriptor on two domain classes + self-inverse relation; a 4-level sub-property chain whose domain classes and role taker skip levels), plus ALL "
                 "permutations of fact sets of <= 5 (thorough <= 6) facts; non-trivial = the closure is strictly larger than the asserted set; "
                 "distinct = distinct (family, population, history)")
     ok_spec, log = core.coq_make(["Base/Sx.vo", "Onto/ClosureSpec.vo"])
